@@ -13,7 +13,6 @@ from __future__ import annotations
 
 import asyncio
 import collections
-import hashlib
 import json
 import os
 import random
@@ -24,7 +23,7 @@ from types import SimpleNamespace
 
 from checks import _batchdb as B
 from checks import _drivermem as M
-from vlib import tlaval, tlc, walk
+from vlib import tlaval, tlc
 from vlib.runner import BUILD
 
 PREFIX = "w-"                    # MACHINE_NAME_PREFIX of this world: instance names are w-standard-<x>
@@ -444,10 +443,6 @@ WHERE removed = 0 AND inst_coll = %s;
         if name.startswith("D"):
             return super().apply("M" + name[1:], args)
         raise RuntimeError(f"unknown action {name}")
-
-    def record(self, j, a):
-        r = super().record(j, a)
-        return r
 
     # -- projection ---------------------------------------------------------------------------------------------------------------------------
     def project(self):
